@@ -13,7 +13,7 @@ From EsVerif.C04 Require Import Gen TextModel.
 (* ------------------------------------------------------------------ exact arithmetic on N/D, N >= 0, D > 0 *)
 (* round half to even of a/b, a >= 0, b > 0 *)
 Definition rhe (a b : Z) : Z :=
-  let q := a / b in let r := a mod b in
+  let '(q, r) := Z.div_eucl a b in
   if 2 * r <? b then q else if b <? 2 * r then q + 1 else if Z.even q then q else q + 1.
 
 (* N/D >= B^k ? *)
